@@ -237,7 +237,8 @@ class Normalize(Command):
         arr_min = arr.min()
         arr_max = arr.max()
 
-        return (arr - arr_min) * (start - end) / (arr_min - arr_max) + start
+        # (end - start) / (max - min) rather than (start - end) / (min - max): unsigned integer data must not wrap around
+        return (arr - arr_min) * (end - start) / (arr_max - arr_min) + start
 
 
 class NormalizeZScore(Command):
